@@ -71,6 +71,7 @@ FNode.attrs["type"] = lambda eng, st, e: B.uf_value(eng, st, "FNode.type", [e.z]
 for _m in ("is_bool_type", "is_int_type", "is_real_type", "is_user_type", "is_time_type",
            "is_movable_type", "is_tuple_type"):
     Type.observers[_m] = ((), Bool)
+Type.observers["is_compatible"] = ((Type,), Bool)
 
 EKT = Enum(EffectKind)
 Effect = Ref("Effect", _Effect, fields={"_fluent": FNode, "_value": FNode, "_condition": FNode,
@@ -87,3 +88,278 @@ TRUSTED = [
     "FNode == / hash is identity (no __eq__ override) — read from the class at run time",
     "Type.is_*_type() are pure observers",
 ]
+
+
+# =====================================================================================================
+# Expression semantics under one arbitrary, fixed interpretation of fluents / parameters / variables
+# (DESIGN.md 3.1): evb : FNode -> Bool, evn : FNode -> Real, evo : FNode -> Object, defined per operator kind.
+# The defining equation of a kind is *assumed* only for nodes of that kind (at the handler's input node and
+# at nodes returned by the constructor contracts below).
+# =====================================================================================================
+evb = z3.Function("evb", FNode.z3sort(), z3.BoolSort())
+evn = z3.Function("evn", FNode.z3sort(), z3.RealSort())
+evo = z3.Function("evo", FNode.z3sort(), Object.z3sort())
+_ARR = z3.ArraySort(z3.IntSort(), FNode.z3sort())
+ssum = z3.Function("ssum", _ARR, z3.IntSort(), z3.RealSort())     # sum of evn over arr[0..n)
+sprod = z3.Function("sprod", _ARR, z3.IntSort(), z3.RealSort())   # product of evn over arr[0..n)
+args_arr = B._uf("FNode.args.arr", FNode.z3sort(), _ARR)
+args_len = B._uf("FNode.args.len", FNode.z3sort(), z3.IntSort())
+
+
+def fold_axioms():
+    """definitions of ssum/sprod by recursion on the length + the prefix lemma (proved by induction:
+    base and step are discharged by z3 in contracts/c11.py units `lemma:*`)"""
+    a, b = z3.Const("a!ax", _ARR), z3.Const("b!ax", _ARR)
+    n, m = z3.Int("n!ax"), z3.Int("m!ax")
+    ax = [
+        z3.ForAll([a], ssum(a, 0) == 0),
+        z3.ForAll([a, n], z3.Implies(n > 0, ssum(a, n) == ssum(a, n - 1) + evn(z3.Select(a, n - 1))), patterns=[ssum(a, n)]),
+        z3.ForAll([a], sprod(a, 0) == 1),
+        z3.ForAll([a, n], z3.Implies(n > 0, sprod(a, n) == sprod(a, n - 1) * evn(z3.Select(a, n - 1))), patterns=[sprod(a, n)]),
+    ]
+    return ax
+
+
+def prefix_lemmas():
+    a, b = z3.Const("a!lx", _ARR), z3.Const("b!lx", _ARR)
+    n, m = z3.Int("n!lx"), z3.Int("m!lx")
+    # congruence in the *values*: element-wise equal values give equal folds (covers identical prefixes)
+    same = z3.ForAll([m], z3.Implies(z3.And(0 <= m, m < n), evn(z3.Select(a, m)) == evn(z3.Select(b, m))))
+    return [z3.ForAll([a, b, n], z3.Implies(z3.And(n >= 0, same), ssum(a, n) == ssum(b, n)), patterns=[z3.MultiPattern(ssum(a, n), ssum(b, n))]),
+            z3.ForAll([a, b, n], z3.Implies(z3.And(n >= 0, same), sprod(a, n) == sprod(b, n)), patterns=[z3.MultiPattern(sprod(a, n), sprod(b, n))])]
+
+
+def sem_eq(eng, st, e, kind):
+    """defining equation of the semantics at node e (z3 ref) of operator kind `kind`"""
+    j = z3.Int(fresh_name("j"))
+    arr, n = args_arr(e), args_len(e)
+    a0, a1 = z3.Select(arr, 0), z3.Select(arr, 1)
+    if kind == OK.AND:
+        return evb(e) == z3.ForAll([j], z3.Implies(z3.And(0 <= j, j < n), evb(z3.Select(arr, j))))
+    if kind == OK.OR:
+        return evb(e) == z3.Exists([j], z3.And(0 <= j, j < n, evb(z3.Select(arr, j))))
+    if kind == OK.NOT:
+        return evb(e) == z3.Not(evb(a0))
+    if kind == OK.IMPLIES:
+        return evb(e) == z3.Implies(evb(a0), evb(a1))
+    if kind == OK.IFF:
+        return evb(e) == (evb(a0) == evb(a1))
+    if kind == OK.LE:
+        return evb(e) == (evn(a0) <= evn(a1))
+    if kind == OK.LT:
+        return evb(e) == (evn(a0) < evn(a1))
+    if kind == OK.EQUALS:
+        return evb(e) == val_eq(a0, a1)
+    if kind == OK.PLUS:
+        return evn(e) == ssum(arr, n)
+    if kind == OK.TIMES:
+        return evn(e) == sprod(arr, n)
+    if kind == OK.MINUS:
+        return evn(e) == evn(a0) - evn(a1)
+    if kind == OK.DIV:
+        return z3.Implies(evn(a1) != 0, evn(e) == evn(a0) / evn(a1))
+    if kind == OK.BOOL_CONSTANT:
+        return evb(e) == B._uf("FNode.payload.BOOL_CONSTANT", FNode.z3sort(), z3.BoolSort())(e)
+    if kind == OK.INT_CONSTANT:
+        return evn(e) == z3.ToReal(B._uf("FNode.payload.INT_CONSTANT", FNode.z3sort(), z3.IntSort())(e))
+    if kind == OK.REAL_CONSTANT:
+        return evn(e) == B._uf("FNode.payload.REAL_CONSTANT", FNode.z3sort(), z3.RealSort())(e)
+    if kind == OK.OBJECT_EXP:
+        return evo(e) == B._uf("FNode.payload.OBJECT_EXP", FNode.z3sort(), Object.z3sort())(e)
+    return z3.BoolVal(True)
+
+
+is_numeric = z3.Function("is_numeric", FNode.z3sort(), z3.BoolSort())   # the expression has a numeric type
+
+
+def val_eq(a, b):
+    """value equality of two (type-compatible) expressions: numbers by value, objects by identity"""
+    return z3.If(z3.And(is_numeric(a), is_numeric(b)), evn(a) == evn(b),
+                 z3.If(z3.Or(is_numeric(a), is_numeric(b)), z3.BoolVal(False), evo(a) == evo(b)))
+
+
+ARITY = {OK.NOT: 1, OK.IMPLIES: 2, OK.IFF: 2, OK.LE: 2, OK.LT: 2, OK.EQUALS: 2, OK.MINUS: 2, OK.DIV: 2,
+         OK.BOOL_CONSTANT: 0, OK.INT_CONSTANT: 0, OK.REAL_CONSTANT: 0, OK.OBJECT_EXP: 0}
+
+
+def assume_node(eng, st, e, kind):
+    """e is a well-formed node of the given kind (constructor invariant, C16) with its semantics"""
+    st.assume(node_type(e) == OKT.consts[kind])
+    st.assume(args_len(e) >= 0)
+    if kind in ARITY:
+        st.assume(args_len(e) == ARITY[kind])
+    if kind in (OK.INT_CONSTANT, OK.REAL_CONSTANT):
+        st.assume(is_numeric(e))
+    if kind in (OK.BOOL_CONSTANT, OK.OBJECT_EXP):
+        st.assume(z3.Not(is_numeric(e)))
+    if kind in (OK.PLUS, OK.MINUS, OK.TIMES, OK.DIV):
+        st.assume(is_numeric(e))
+    st.assume(sem_eq(eng, st, e, kind))
+
+
+# ---- ExpressionManager as a callee: constructor contracts (proved against the real constructors in C16)
+Manager = Ref("ExpressionManager")
+_mkbool = z3.Function("mk.Bool", z3.BoolSort(), FNode.z3sort())
+_mkint = z3.Function("mk.Int", z3.IntSort(), FNode.z3sort())
+_mkreal = z3.Function("mk.Real", z3.RealSort(), FNode.z3sort())
+_mk1 = z3.Function("mk.unary", OKT.z3sort(), FNode.z3sort(), FNode.z3sort())
+_mk2 = z3.Function("mk.binary", OKT.z3sort(), FNode.z3sort(), FNode.z3sort(), FNode.z3sort())
+_mkn = z3.Function("mk.nary", OKT.z3sort(), _ARR, z3.IntSort(), FNode.z3sort())
+
+
+def mk_bool(eng, st, v):
+    r = _mkbool(zbool(v))
+    assume_node(eng, st, r, OK.BOOL_CONSTANT)
+    st.assume(B._uf("FNode.payload.BOOL_CONSTANT", FNode.z3sort(), z3.BoolSort())(r) == zbool(v))
+    return FNode.wrap(r)
+
+
+def mk_int(eng, st, v):
+    r = _mkint(zint(v))
+    assume_node(eng, st, r, OK.INT_CONSTANT)
+    st.assume(B._uf("FNode.payload.INT_CONSTANT", FNode.z3sort(), z3.IntSort())(r) == zint(v))
+    return FNode.wrap(r)
+
+
+def mk_real(eng, st, v):
+    r = _mkreal(zreal(v))
+    assume_node(eng, st, r, OK.REAL_CONSTANT)
+    st.assume(B._uf("FNode.payload.REAL_CONSTANT", FNode.z3sort(), z3.RealSort())(r) == zreal(v))
+    return FNode.wrap(r)
+
+
+def mk_fixed(eng, st, kind, *children):
+    k = OKT.consts[kind]
+    r = _mk1(k, children[0].z) if len(children) == 1 else _mk2(k, children[0].z, children[1].z)
+    assume_node(eng, st, r, kind)
+    for i, c in enumerate(children):
+        st.assume(z3.Select(args_arr(r), i) == c.z)
+    return FNode.wrap(r)
+
+
+def mk_nary(eng, st, kind, seq):
+    """And/Or/Plus/Times over a sequence: 0 -> unit constant, 1 -> the element, else a node of that kind.
+    yields (st, node) -- forks on the length"""
+    unit = {OK.AND: lambda s: mk_bool(eng, s, True), OK.OR: lambda s: mk_bool(eng, s, False),
+            OK.PLUS: lambda s: mk_int(eng, s, 0), OK.TIMES: lambda s: mk_int(eng, s, 1)}[kind]
+    for s, z in eng.branch(st, seq.n == 0, "mk:n=0"):
+        if z:
+            yield s, unit(s)
+            continue
+        for s2, one in eng.branch(s, seq.n == 1, "mk:n=1"):
+            if one:
+                yield s2, seq.at(0)
+                continue
+            r = _mkn(OKT.consts[kind], seq.arr, seq.n)
+            assume_node(eng, s2, r, kind)
+            jj = z3.Int(fresh_name("j"))
+            s2.assume(args_len(r) == seq.n)
+            s2.assume(z3.ForAll([jj], z3.Implies(z3.And(0 <= jj, jj < seq.n), z3.Select(args_arr(r), jj) == z3.Select(seq.arr, jj))))
+            yield s2, FNode.wrap(r)
+
+
+def _seq_args(eng, st, args):
+    """polymorphic n-ary arguments: And(a, b, c) / And([a, b, c]) / And(dict_keys)"""
+    from pyvc.engine import StarSeq
+    if len(args) == 1:
+        c = eng.deref(st, args[0])
+        if isinstance(c, SSeq):
+            return c
+        if isinstance(c, (CList, tuple, list)):
+            return B.as_sseq(eng, st, c, FNode)
+        if isinstance(c, (SMap, SSet)) and c.keys is not None:
+            return c.keys
+    if any(isinstance(a, StarSeq) for a in args):
+        return B.concat_star(eng, st, list(args))
+    return SSeq.of(FNode, list(args))
+
+
+def _nary(kind):
+    def m(eng, st, selfv, args, kw):
+        yield from mk_nary(eng, st, kind, _seq_args(eng, st, args))
+    return m
+
+
+def _fixed(kind, mirror=False):
+    def m(eng, st, selfv, args, kw):
+        cs = list(args)
+        if mirror:
+            cs = cs[::-1]
+        yield st, mk_fixed(eng, st, kind, *cs)
+    return m
+
+
+def _m_not(eng, st, selfv, args, kw):
+    (x,) = args
+    isnot = node_type(x.z) == OKT.consts[OK.NOT]
+    for s, b in eng.branch(st, isnot, "mk:not-not"):
+        if b:
+            yield s, FNode.wrap(z3.Select(args_arr(x.z), 0))      # double negation
+        else:
+            yield s, mk_fixed(eng, s, OK.NOT, x)
+
+
+def _m_bool(eng, st, selfv, args, kw):
+    yield st, mk_bool(eng, st, args[0])
+
+
+def _m_int(eng, st, selfv, args, kw):
+    yield st, mk_int(eng, st, args[0])
+
+
+def _m_real(eng, st, selfv, args, kw):
+    yield st, mk_real(eng, st, args[0])
+
+
+Manager.methods.update({
+    "And": _nary(OK.AND), "Or": _nary(OK.OR), "Plus": _nary(OK.PLUS), "Times": _nary(OK.TIMES),
+    "Not": _m_not, "Implies": _fixed(OK.IMPLIES), "Iff": _fixed(OK.IFF), "Equals": _fixed(OK.EQUALS),
+    "LE": _fixed(OK.LE), "LT": _fixed(OK.LT), "GE": _fixed(OK.LE, True), "GT": _fixed(OK.LT, True),
+    "Minus": _fixed(OK.MINUS), "Div": _fixed(OK.DIV),
+    "TRUE": lambda eng, st, selfv, args, kw: iter([(st, mk_bool(eng, st, True))]),
+    "FALSE": lambda eng, st, selfv, args, kw: iter([(st, mk_bool(eng, st, False))]),
+    "Bool": _m_bool, "Int": _m_int, "Real": _m_real,
+})
+
+
+def semantic_axioms(kinds=(OK.AND, OK.OR, OK.NOT, OK.IMPLIES, OK.IFF, OK.LE, OK.LT, OK.EQUALS, OK.PLUS, OK.TIMES, OK.MINUS, OK.DIV,
+                           OK.BOOL_CONSTANT, OK.INT_CONSTANT, OK.REAL_CONSTANT, OK.OBJECT_EXP)):
+    """for every node e of kind K the defining equation of K holds (the meaning of the operators), plus the
+    typing facts of constants and arithmetic nodes"""
+    ax = []
+    e = z3.Const("e!sem", FNode.z3sort())
+    for k in kinds:
+        ax.append(z3.ForAll([e], z3.Implies(node_type(e) == OKT.consts[k], sem_eq(None, None, e, k)), patterns=[node_type(e)]))
+        if k in ARITY:
+            ax.append(z3.ForAll([e], z3.Implies(node_type(e) == OKT.consts[k], args_len(e) == ARITY[k]), patterns=[node_type(e)]))
+    num = [OK.INT_CONSTANT, OK.REAL_CONSTANT, OK.PLUS, OK.MINUS, OK.TIMES, OK.DIV]
+    nonnum = [OK.BOOL_CONSTANT, OK.OBJECT_EXP, OK.AND, OK.OR, OK.NOT, OK.IMPLIES, OK.IFF, OK.LE, OK.LT, OK.EQUALS, OK.EXISTS, OK.FORALL]
+    ax.append(z3.ForAll([e], z3.Implies(z3.Or([node_type(e) == OKT.consts[k] for k in num]), is_numeric(e)), patterns=[node_type(e)]))
+    ax.append(z3.ForAll([e], z3.Implies(z3.Or([node_type(e) == OKT.consts[k] for k in nonnum]), z3.Not(is_numeric(e))), patterns=[node_type(e)]))
+    ax.append(z3.ForAll([e], args_len(e) >= 0, patterns=[args_len(e)]))
+    # well-typed arithmetic nodes have numeric children (type checker, C15)
+    j = z3.Int("j!sem")
+    ax.append(z3.ForAll([e, j], z3.Implies(z3.And(z3.Or([node_type(e) == OKT.consts[k] for k in (OK.PLUS, OK.TIMES, OK.MINUS, OK.DIV)]),
+                                                  0 <= j, j < args_len(e)), is_numeric(z3.Select(args_arr(e), j))),
+                        patterns=[z3.Select(args_arr(e), j)]))
+    return ax
+
+
+def typed_interpretation_axioms():
+    """values respect the declared types: expressions of user types that are incompatible in both directions
+    never denote the same object (objects have one type; compatibility is the subtype relation)"""
+    a, b = z3.Const("a!ty", FNode.z3sort()), z3.Const("b!ty", FNode.z3sort())
+    ty = B._uf("FNode.type", FNode.z3sort(), Type.z3sort())
+    isu = B._uf("Type.is_user_type()", Type.z3sort(), z3.BoolSort())
+    comp = B._uf("Type.is_compatible()", Type.z3sort(), Type.z3sort(), z3.BoolSort())
+    return [z3.ForAll([a, b], z3.Implies(z3.And(isu(ty(a)), isu(ty(b)), z3.Not(comp(ty(a), ty(b))), z3.Not(comp(ty(b), ty(a)))),
+                                         z3.And(evo(a) != evo(b), z3.Not(is_numeric(a)), z3.Not(is_numeric(b)))),
+                      patterns=[z3.MultiPattern(ty(a), ty(b))])]
+
+
+def zero_product_lemma():
+    """a zero factor makes the product zero (induction on n; base/step discharged in contracts/c11.py)"""
+    a = z3.Const("a!zp", _ARR)
+    n, k = z3.Int("n!zp"), z3.Int("k!zp")
+    return [z3.ForAll([a, n, k], z3.Implies(z3.And(0 <= k, k < n, evn(z3.Select(a, k)) == 0), sprod(a, n) == 0),
+                      patterns=[z3.MultiPattern(sprod(a, n), evn(z3.Select(a, k)))])]
